@@ -526,6 +526,24 @@ func checkKey(txid []byte, idx uint32) string {
 	if !bytes.Equal(got, want) {
 		return fmt.Sprintf("outpointKey(%x:%d)=%x, format is %x", txid, idx, got, want)
 	}
+	// key buffers are pooled: the key must not depend on what the buffer it is
+	// built in was used for before (a shorter key, a longer key, the same key);
+	// each pair runs back to back on this goroutine so that the second call
+	// gets the buffer the first one recycled
+	for _, pre := range []uint32{0, 127, 128, 16511, 16512, 1<<32 - 1, idx} {
+		var again []byte
+		if p := func() (p interface{}) {
+			defer func() { p = recover() }()
+			blockchain.VerifOutpointKey(wire.OutPoint{Hash: h, Index: pre})
+			again = blockchain.VerifOutpointKey(wire.OutPoint{Hash: h, Index: idx})
+			return nil
+		}(); p != nil {
+			return fmt.Sprintf("outpointKey(%x:%d) right after outpointKey(index %d): panic %v", txid, idx, pre, p)
+		}
+		if !bytes.Equal(again, want) {
+			return fmt.Sprintf("outpointKey(%x:%d) right after outpointKey(index %d) = %x, format is %x", txid, idx, pre, again, want)
+		}
+	}
 	// dbFetchUtxoEntryByHash seeks to <hash><VLQ(0)> and relies on every key of
 	// the same hash sorting at or after it.
 	zero := blockchain.VerifOutpointKey(wire.OutPoint{Hash: h, Index: 0})
